@@ -258,6 +258,42 @@ def build():
             ctx.check("inv-after-re-registration", _inv_lists(ctx, {1: ex._qubit_unit_modules[1]}, ex._used_physical_qubit_addresses))
     R.add("inv[stop_application + re-registration]", kind="lia", samples=150, max_paths=4000)(stop_app)
 
+    def stop_interleaved(ctx):
+        """stop_application is a generator that yields once per cleared qubit (base class hook): while it is suspended another
+        application keeps running.  Exhaustive over small concrete configurations: application 0 (being stopped) holds up to
+        three qubits, application 1 allocates a virtual qubit at every yield; afterwards the representation invariant holds."""
+        from specs.hub_sock import clear_yielding
+        um0 = list(ctx.choice("um0", [[5], [5, 6], [None, 5], [0, 1, 2], [2, None, 0], [1, 3]]))
+        um1 = list(ctx.choice("um1", [[None, None, None, None], [4, None, None, None], [None, 7, None, None]]))
+        ex = new_executor(ctx, apps=(0, 1), um_sizes={0: len(um0), 1: len(um1)})
+        ex._qubit_unit_modules[0] = list(um0)
+        ex._qubit_unit_modules[1] = list(um1)
+        ex._used_physical_qubit_addresses = set(v for v in um0 + um1 if v is not None)
+        _install(ctx, ex, False)
+        ex._subroutines[SID] = Subroutine(app_id=1)
+        if ctx.symbolic:
+            ctx.it.stubs[Executor._clear_phys_qubit_in_memory] = lambda it_, a, k: it_.call(clear_yielding, [ex.events, a[1]], {})
+        else:
+            ex._clear_phys_qubit_in_memory = lambda p: clear_yielding(ex.events, p)
+        gen = ctx.call(ex.stop_application, 0)
+        nxt = [v for v in range(len(um1)) if um1[v] is None]
+        k = 0
+        while True:
+            out = ctx.attempt(next, gen)
+            if out[0] == "exc":
+                ctx.check("stop_application finishes normally", isinstance(out[1], StopIteration))
+                break
+            if k < len(nxt):
+                a = ctx.attempt(ex._allocate_physical_qubit, SID, nxt[k])       # the other application allocates while the stop is suspended
+                ctx.check("the other application can allocate while a stop is in progress", a[0] == "ret")
+                k += 1
+        um = ex._qubit_unit_modules[1]
+        mapped = [v for v in um if v is not None]
+        ctx.check("no two virtual qubits share a physical qubit after an interleaved stop", len(set(mapped)) == len(mapped))
+        ctx.check("in-use set == mapped set after an interleaved stop", set(ex._used_physical_qubit_addresses) == set(mapped))
+        ctx.check("the stopped application is gone", 0 not in ex._qubit_unit_modules)
+    R.add("inv[stop_application interleaved with another application's allocations]", kind="lia", samples=40, max_paths=400)(stop_interleaved)
+
     def double_registration(ctx):
         ex = new_executor(ctx, apps=(0,))
         out = ctx.attempt(ex.init_new_application, 0, 2)
